@@ -168,7 +168,11 @@ def _impl_real(case):
     m = [[6, 0, 0], [0, 6, 0], [0, 0, 6]]
     site_frac = [[0.0, 0.0, 0.0], [0.5, 0.0, 0.0], [0.0, 0.5, 0.0], [0.5, 0.5, 0.0]]
     T, na = case['T'], 3
-    traj = synth.make_traj(m, ['Li'] * na, synth.hopping_positions(r, T, na, site_frac))
+    li = synth.hopping_positions(r, T, na, site_frac)
+    # framework atoms with their own (fast, small) vibration: the correlation window is that of the diffusing species alone
+    nfw = 2 if case.get('framework', True) else 0
+    fw = np.array([[0.25, 0.75, 0.5], [0.75, 0.25, 0.5]])[None, :nfw, :] + 0.004 * np.sin(np.arange(T)[:, None, None] * 2.2 + np.arange(nfw)[None, :, None])
+    traj = synth.make_traj(m, ['Li'] * na + ['S'] * nfw, np.concatenate([li, fw], axis=1))
     sc = case.get('site_scale', 1.0)
     sites = synth.make_sites([[v * sc for v in row] for row in m], site_frac)
     tr = traj.transitions_between_sites(sites, 'Li', site_radius=1.0)
@@ -177,7 +181,7 @@ def _impl_real(case):
     except ValueError:
         return {'real': True, 'nojumps': True}
     coll = j.collective(max_dist=case['maxd'])
-    freq, _ = traj.metrics().attempt_frequency()
+    freq, _ = traj.filter('Li').metrics().attempt_frequency()
     table = [[int(v) for v in row] for row in j.data[['atom index', 'start site', 'destination site', 'start time', 'stop time']].to_numpy()]
     return {'real': True, 'table': table, 'W': int(coll.max_steps), 'freq': float(freq), 'dt': float(traj.time_step),
             'pairs': _pairs_out(coll, table), 'solo': int(coll.n_solo_jumps), 'ncoll': int(coll.n_coll_jumps),
